@@ -234,6 +234,10 @@ def new_spans(desc):
         st, step = desc['start'], desc.get('step', 1)
         for shift, m in ((0, n), (1, n), (-2, n + 3), (2, max(n - 2, 0)), (n + 5, 2), (-1, n + 2), (0, 0)):
             out.append({'k': 'range', 'start': st + shift * step, 'n': m, 'step': step})
+        if abs(step) > 1:
+            # same step, out of phase: no label in common although the ranges interleave
+            out.append({'k': 'range', 'start': st + 1, 'n': n, 'step': step})
+            out.append({'k': 'range', 'start': st - 2, 'n': n + 1, 'step': step})
         ints = [st + i * step for i in range(-1, n + 1)]
         out.append({'k': 'list', 'items': ints[::-1]})
         out.append({'k': 'list', 'items': ints[:2] + ints[:2] + ints[-1:]})
